@@ -43,12 +43,294 @@ def ghost0 (G : Nat → WG) (e : AEv) (w : Nat) : WG :=
 def ghostStep (G : Nat → WG) (e : AEv) (cbs : List Cb) : Nat → WG :=
   fun w => (cbsFor w cbs).foldl WG.apply (ghost0 G e w)
 
-structure Mon where
-  n : Nat := 0
+/-! ### the monitor: C43 / C44 evaluated on the implementation's output lines
+
+It is fed the op line and the implementation's answer only (its callback log and its own snapshot of the
+authority: harness/synct/c_xdsauth_test.go), never the model state. -/
+
+/-- one `resourceState` as printed by the implementation -/
+structure PRes where
+  key : Key
+  watchers : List Nat
+  cache : Option String
+  status : String
+  errTag : Option String
+  chans : List Nat
 deriving Repr
 
-def Mon.start (n : Nat) (_ign : List Bool) (_which : String) : Mon := { n := n }
+/-- one server as printed by the implementation -/
+structure PSrv where
+  builds : Nat
+  streams : Nat
+  state : String       -- closed | idle | dead | live
+  flags : String       -- for live/dead: W|B then m|n then p|f ; for idle: p|f
+  view : List String   -- "T.r1" … (live only)
+deriving Repr
 
-def observe (m : Mon) (_fs : List String) (_impl : String) : Mon × String := (m, "-")
+structure Snap where
+  cbs : List (Nat × List CbKind)
+  act : Option Nat
+  srv : List PSrv
+  res : List PRes
+deriving Repr
+
+def fieldOf (impl key : String) : Option String :=
+  (impl.splitOn " ").findSome? fun w =>
+    if w.startsWith (key ++ "=") then some (w.drop (key.length + 1)).toString else none
+
+def parseNats (s : String) : List Nat := if s = "-" then [] else (s.splitOn "+").filterMap String.toNat?
+
+def parseErr (s : String) : Err :=
+  if s.startsWith "nack." then .nack (s.drop 5).toString
+  else if s = "notfound" then .notFound
+  else if s = "conn" then .conn
+  else .other
+
+def parseCb (s : String) : Option CbKind :=
+  if s.startsWith "C." then some (.changed (s.drop 2).toString)
+  else if s.startsWith "R." then some (.resErr (parseErr (s.drop 2).toString))
+  else if s.startsWith "A." then some (.ambErr (parseErr (s.drop 2).toString))
+  else none
+
+def parseCbs (s : String) : List (Nat × List CbKind) :=
+  if s = "-" then [] else
+  (s.splitOn ";").filterMap fun e =>
+    match e.splitOn ":" with
+    | [w, seq] => ((w.drop 1).toString.toNat?).map fun id => (id, (seq.splitOn "+").filterMap parseCb)
+    | _ => none
+
+def kv (fields : List String) (k : String) : String :=
+  (fields.findSome? fun f => if f.startsWith (k ++ "=") then some (f.drop (k.length + 1)).toString else none).getD "-"
+
+def parseRes (s : String) : List PRes :=
+  if s = "-" then [] else
+  (s.splitOn ",").filterMap fun e =>
+    match e.splitOn "[" with
+    | [head, body] =>
+      match head.splitOn "." with
+      | [t, n] =>
+        let fs := ((body.dropEnd 1).toString).splitOn ";"
+        let c := kv fs "c"
+        let er := kv fs "e"
+        some { key := ⟨t, n⟩, watchers := parseNats (kv fs "w"), cache := if c = "-" then none else some c,
+               status := kv fs "st", errTag := if er = "-" then none else (er.splitOn "@").head?,
+               chans := parseNats (kv fs "ch") }
+      | _ => none
+    | _ => none
+
+def parseSrv (s : String) : Option PSrv :=
+  match s.splitOn "/" with
+  | [b, st, "closed"] => some { builds := b.toNat?.getD 0, streams := st.toNat?.getD 0, state := "closed", flags := "", view := [] }
+  | b :: st :: state :: _u :: view :: _ =>
+    let (nm, fl) :=
+      if state.startsWith "live" then ("live", (state.drop 4).toString)
+      else if state.startsWith "dead" then ("dead", (state.drop 4).toString)
+      else ("idle", (state.drop 4).toString)
+    let v := (view.drop 5).toString   -- after "view="
+    let names := if v = "-" then [] else
+      (v.splitOn ",").flatMap fun tv =>
+        match tv.splitOn ":" with
+        | [t, ns] => if ns = "" then [] else (ns.splitOn "+").map fun n => t ++ "." ++ n
+        | _ => []
+    some { builds := b.toNat?.getD 0, streams := st.toNat?.getD 0, state := nm, flags := fl, view := names }
+  | _ => none
+
+def parseSnap (n : Nat) (impl : String) : Option Snap := do
+  let cb ← fieldOf impl "cb"
+  let act ← fieldOf impl "act"
+  let res ← fieldOf impl "res"
+  let srv ← (List.range n).mapM fun i => (fieldOf impl s!"s{i}") >>= parseSrv
+  pure { cbs := parseCbs cb, act := act.toNat?, srv := srv, res := parseRes res }
+
+structure Mon where
+  n : Nat := 0
+  ign : List Bool := []
+  which : String := ""
+  prev : Option Snap := none
+  ghosts : List (Nat × WG) := []
+  accepted : List (Key × String) := []   -- contents some delivered response carried as valid
+  held : Bool := false
+deriving Repr
+
+def Mon.start (n : Nat) (ign : List Bool) (which : String) : Mon :=
+  { n := n, ign := ign, which := which,
+    prev := some { cbs := [], act := none, srv := List.replicate n { builds := 0, streams := 0, state := "closed", flags := "", view := [] }, res := [] } }
+
+def ghostOf (gs : List (Nat × WG)) (w : Nat) : WG := ((gs.find? (·.1 = w)).map (·.2)).getD {}
+def setGhost (gs : List (Nat × WG)) (w : Nat) (g : WG) : List (Nat × WG) := (gs.filter (·.1 ≠ w)) ++ [(w, g)]
+
+def resOfWatcher (s : Snap) (w : Nat) : Option PRes := s.res.find? fun r => r.watchers.contains w
+def resOfKey (s : Snap) (k : Key) : Option PRes := s.res.find? fun r => r.key = k
+def cbsOf (s : Snap) (w : Nat) : List CbKind := ((s.cbs.find? (·.1 = w)).map (·.2)).getD []
+
+def parseEntries (e : String) : List (String × Upd) :=
+  if e = "-" then [] else
+  (e.splitOn ",").foldl (fun acc x =>
+    match x.splitOn ":" with
+    | [n, "ok", c] => (acc.filter (·.1 ≠ n)) ++ [(n, Upd.ok c)]
+    | [n, "bad", t] => (acc.filter (·.1 ≠ n)) ++ [(n, Upd.bad t)]
+    | _ => acc) []
+
+/-- what a new watcher must be told, from the implementation's own previous snapshot (clause 5) -/
+def expectInitial (r : PRes) : List CbKind :=
+  (match r.cache with | some c => [CbKind.changed c] | none => []) ++
+  (if r.status = "nacked" then
+    match r.errTag with
+    | some t => [if r.cache.isNone then .resErr (.nack t) else .ambErr (.nack t)]
+    | none => []
+   else []) ++
+  (if r.status = "notexist" then [.resErr .notFound] else [])
+
+def firstSome (l : List (Option String)) : Option String := l.findSome? id
+
+/-- C43 clauses evaluated on one step of the implementation -/
+def checkC43 (m : Mon) (fs : List String) (pre post : Snap) (accepted : List (Key × String)) : Option String :=
+  let newW : Option Nat := match fs with | ["watch", _, _, w] => w.toNat? | _ => none
+  -- clause 2 (no duplicate ResourceChanged) + clause 1 (only accepted content) + latest value / error kind
+  let perWatcher := post.cbs.map fun (w, ks) =>
+    let g0 : WG := if newW = some w then {} else ghostOf m.ghosts w
+    if !okSeq g0 ks then some s!"VIOL watcher {w} got ResourceChanged with the content it already holds and no NACK in between"
+    else match resOfWatcher post w with
+      | none => none
+      | some r =>
+        let bad := ks.findSome? fun k => match k with
+          | .changed c => if accepted.contains (r.key, c) then none
+                          else some s!"VIOL watcher {w} got ResourceChanged({c}) but no response carried that as a valid {r.key.typ}.{r.key.name}"
+          | _ => none
+        match bad with
+        | some v => some v
+        | none =>
+          match ks.getLast? with
+          | some (.changed c) => if r.cache = some c then none else some s!"VIOL watcher {w} was last told ResourceChanged({c}) but the client caches something else"
+          | some (.resErr _) => if r.cache.isNone then none else some s!"VIOL watcher {w} got ResourceError although a valid resource is cached"
+          | some (.ambErr _) => if r.cache.isSome then none else some s!"VIOL watcher {w} got AmbientError although no resource is cached"
+          | none => none
+  -- clause 5 (new watcher)
+  let c5 : Option String := match fs with
+    | ["watch", t, name, w] =>
+      if m.held ∨ (t ≠ "T" ∧ t ≠ "U") then none else
+      match w.toNat? with
+      | none => none
+      | some w =>
+        let want := match resOfKey pre ⟨t, name⟩ with | some r => expectInitial r | none => []
+        -- the first watch also creates the channel: its stream may fail within the same step, so more
+        -- callbacks may follow the immediate ones, but only then
+        let got := cbsOf post w
+        let built : Bool := (pre.srv.map (·.builds)) != (post.srv.map (·.builds))
+        if want.isPrefixOf got && (got.length == want.length || built) then
+          (if (resOfWatcher post w).map (·.key) = some ⟨t, name⟩ then none else some s!"VIOL new watcher {w} is not registered")
+        else some s!"VIOL new watcher {w} did not receive exactly the cached resource and the current error state"
+    | _ => none
+  -- clause 6 (subscriptions = watched resources)
+  let c6a := post.res.findSome? fun r =>
+    if r.watchers.isEmpty then some s!"VIOL {r.key.typ}.{r.key.name} keeps a state (and subscriptions) without any watcher" else none
+  let c6b := (List.range post.srv.length).findSome? fun i =>
+    match post.srv[i]? with
+    | some s =>
+      if s.state = "live" then
+        let want := (post.res.filter fun r => r.chans.contains i).map fun r => r.key.typ ++ "." ++ r.key.name
+        if (s.view.all want.contains) ∧ (want.all s.view.contains) then none
+        else some s!"VIOL server {i} is asked for {s.view} but the resources subscribed there are {want}"
+      else none
+    | none => none
+  -- clauses 3, 4: an update that is processed now
+  let c34 : Option String := match fs with
+    | ["respond", i, t, _, e] =>
+      match i.toNat?, pre.act with
+      | some i, some act =>
+        let delivered : Bool := !m.held && (match pre.srv[i]? with | some s => s.state == "live" && s.flags.startsWith "W" | none => false)
+        if !delivered || decide (act < i) then none else
+        let es := parseEntries e
+        pre.res.findSome? fun r =>
+          if r.key.typ ≠ t then none else
+          let want : List CbKind := match entLookup es r.key.name with
+            | some (.bad tag) => if r.errTag = some tag then [] else [if r.cache.isNone then .resErr (.nack tag) else .ambErr (.nack tag)]
+            | some (.ok c) => if r.cache ≠ some c ∨ r.errTag.isSome then [.changed c] else []
+            | none => if sotw t ∧ r.cache.isSome ∧ r.status ≠ "notexist" ∧ !(m.ign.getD i false) then [.resErr .notFound] else []
+          r.watchers.findSome? fun (w : Nat) =>
+            if cbsOf post w == want then none
+            else some s!"VIOL watcher {w} of {r.key.typ}.{r.key.name}: callbacks for this response differ from what the statement requires"
+      | _, _ => none
+    | ["break", i] =>
+      match i.toNat? with
+      | some i =>
+        let s := pre.srv[i]?
+        let before : Bool := !m.held && (match s with | some s => s.state == "live" && s.flags.startsWith "Wn" | none => false)
+        let sameBuilds : Bool := (pre.srv.map (·.builds)) == (post.srv.map (·.builds))
+        if before && sameBuilds then
+          pre.res.findSome? fun r => r.watchers.findSome? fun (w : Nat) =>
+            let want : List CbKind := [if r.cache.isNone then .resErr .conn else .ambErr .conn]
+            if cbsOf post w == want then none else some s!"VIOL watcher {w}: stream failed before any response, expected a connection error callback"
+        else none
+      | none => none
+    | _ => none
+  firstSome (perWatcher ++ [c5, c6a, c6b, c34])
+
+/-- C44 clauses evaluated on one step of the implementation -/
+def checkC44 (m : Mon) (fs : List String) (pre post : Snap) : Option String :=
+  let openOf (s : Snap) : List Nat := (List.range s.srv.length).filter fun i => (s.srv[i]?.map (·.state)).getD "closed" ≠ "closed"
+  let inv : Option String :=
+    match post.act with
+    | some a => if (openOf post).contains a then
+        post.res.findSome? fun r => r.chans.findSome? fun i =>
+          if (openOf post).contains i then none else some s!"VIOL {r.key.typ}.{r.key.name} is subscribed on server {i} which has no channel"
+      else some s!"VIOL active server {a} has no channel"
+    | none => if openOf post = [] then none else some "VIOL channels are open although there is no active server"
+  let sw : Option String := match pre.act, post.act with
+    | some a, some b =>
+      if a < b then
+        -- fallback
+        let uncached := (pre.res ++ post.res).any fun r => r.cache.isNone
+        let activeAlive := (post.srv[a]?.map (·.state)).getD "closed" = "live"
+        if !uncached then some s!"VIOL fallback from server {a} to {b} although every watched resource is cached"
+        else if activeAlive then some s!"VIOL fallback from server {a} to {b} although the stream of the active server {a} had not failed"
+        else none
+      else if b < a then
+        -- revert
+        let cause := match fs with
+          | ["respond", i, _, _, _] => i.toNat? = some b
+          | ["release"] => true
+          | _ => false
+        if !cause then some s!"VIOL reverted from server {a} to {b} without an update from {b}"
+        else if (openOf post).any (b < ·) then some s!"VIOL reverted to server {b} but a lower-priority channel is still open"
+        else if post.res.any fun r => r.chans.any (b < ·) then some s!"VIOL reverted to server {b} but resources are still subscribed below it"
+        else none
+      else none
+    | _, _ => none
+  let below : Option String := match fs with
+    | ["respond", i, _, _, _] =>
+      match i.toNat?, pre.act with
+      | some i, some act =>
+        let delivered : Bool := !m.held && (match pre.srv[i]? with | some s => s.state == "live" && s.flags.startsWith "W" | none => false)
+        if delivered && decide (act < i) then
+          if post.cbs ≠ [] then some s!"VIOL update from server {i} below the active server {act} reached watchers"
+          else if post.act ≠ pre.act then some s!"VIOL update from server {i} below the active server {act} changed the active server"
+          else if (post.res.map fun r => (r.key, r.cache, r.status)) ≠ (pre.res.map fun r => (r.key, r.cache, r.status)) then
+            some s!"VIOL update from server {i} below the active server {act} changed the cache"
+          else none
+        else none
+      | _, _ => none
+    | _ => none
+  firstSome [inv, sw, below]
+
+def observe (m : Mon) (fs : List String) (impl : String) : Mon × String :=
+  -- ops that change the monitor's own bookkeeping without a snapshot
+  match fs, impl with
+  | ["hold"], _ => if impl.startsWith "cb=" then ({ m with held := true, prev := (parseSnap m.n impl).orElse fun _ => m.prev }, "ok") else (m, "-")
+  | _, _ =>
+  match parseSnap m.n impl, m.prev with
+  | some post, some pre =>
+    let accepted := match fs with
+      | ["respond", _, t, _, e] => m.accepted ++ ((parseEntries e).filterMap fun (n, u) => match u with | .ok c => some ((⟨t, n⟩ : Key), c) | _ => none)
+      | _ => m.accepted
+    let verdict := if m.which = "c43" then checkC43 m fs pre post accepted
+                   else if m.which = "c44" then checkC44 m fs pre post else none
+    let newW : Option Nat := match fs with | ["watch", _, _, w] => w.toNat? | _ => none
+    -- a watcher that registers now has been told nothing (watcher ids may be reused after unwatch)
+    let gs0 := match newW with | some w => setGhost m.ghosts w {} | none => m.ghosts
+    let ghosts := post.cbs.foldl (fun gs (w, ks) => setGhost gs w (ks.foldl WG.apply (ghostOf gs w))) gs0
+    let held := match fs with | ["release"] => false | _ => m.held
+    ({ m with prev := some post, ghosts := ghosts, accepted := accepted, held := held }, verdict.getD "ok")
+  | _, _ => (m, "-")
 
 end GrpcModel.XdsAuth.Spec
